@@ -314,6 +314,19 @@ func (a *Analysis) ruleT3() {
 		}
 		a.MapOf[lc.Name] = M
 		maps++
+		// built through a lazy-construction helper called with &guard, &M, list?
+		if insts := a.lazyInstances()[M]; len(insts) > 0 {
+			nw := 0
+			for _, w := range a.Ef.Writes[M] {
+				if !w.Test {
+					nw++
+				}
+			}
+			if nw == 0 {
+				a.t3Lazy(lc, M, insts, usedGuard)
+				continue
+			}
+		}
 		// writers of M
 		var builder *ssa.Function
 		okW := true
@@ -650,6 +663,124 @@ func (a *Analysis) helperShape(h *ssa.Function) string {
 		}
 	}
 	return ""
+}
+
+// t3Lazy discharges the T3 obligations of map M when it is built through a lazy helper
+// (rules_lazy.go): the helper has the guarded shape for any pointers, every use of &M is such
+// a call, all with one guard that serves no other map, and the list passed is L.
+func (a *Analysis) t3Lazy(lc LangCtx, M *ssa.Global, insts []lazyInst, usedGuard map[*ssa.Global]string) {
+	r := a.R
+	pos := a.P.Pos(M.Pos())
+	lh := insts[0].Helper
+	sp0 := a.P.InstrPos(insts[0].Site)
+	if lh.Problem != "" {
+		r.Add("T3", "shape/"+M.Name(), a.P.Pos(lh.H.Pos()), "", Undecided, "%s is built through %s, which is not a recognised lazy-construction helper: %s", M.Name(), fnKey(lh.H), lh.Problem)
+		return
+	}
+	// every non-test use of &M is a call of that helper in the map position
+	okW := true
+	for _, u := range a.Ef.AddrUse[M] {
+		if a.P.IsTestFunc(u.Parent()) {
+			continue
+		}
+		if !a.isLazyUse(u, M, false) {
+			r.Bad("T3", "writers/"+M.Name(), a.P.InstrPos(u), "", "the address of %s is used other than as the map argument of %s", M.Name(), fnKey(lh.H))
+			okW = false
+		}
+	}
+	if esc := a.Ef.Escapes[M]; len(esc) > 0 {
+		r.Unk("T3", "writers/"+M.Name(), pos, "", "%s escapes the analysis: %v", M.Name(), esc)
+		okW = false
+	}
+	guard, list := insts[0].Guard, insts[0].List
+	for _, in := range insts {
+		if in.Helper != lh {
+			r.Bad("T3", "writers/"+M.Name(), a.P.InstrPos(in.Site), "", "%s is built through two different helpers", M.Name())
+			okW = false
+		}
+		if in.Guard != guard || in.Guard == nil {
+			r.Bad("T3", "guard/"+M.Name(), a.P.InstrPos(in.Site), "", "%s is built under different guards at different call sites (or under a guard that is not a package-level sync.Once)", M.Name())
+			guard = nil
+		}
+		if in.List != list {
+			list = nil
+		}
+	}
+	if okW {
+		r.OK("T3", "writers/"+M.Name(), pos, "", "written only inside the closure that %s runs under its guard parameter (%d call sites)", fnKey(lh.H), len(insts))
+	}
+	if guard != nil {
+		// the guard serves this map only, and is used only as the guard argument of the helper
+		okG := true
+		for m2, others := range a.lazyInstances() {
+			if m2 == M {
+				continue
+			}
+			for _, in := range others {
+				if in.Guard == guard {
+					r.Bad("T3", "guard/"+M.Name(), a.P.InstrPos(in.Site), "", "guard %s is also used to build %s: whichever is used first wins and the other map is never built", guard.Name(), m2.Name())
+					okG = false
+				}
+			}
+		}
+		for _, d := range a.onceDoCalls() {
+			if d.Guard == guard {
+				r.Bad("T3", "guard/"+M.Name(), a.P.InstrPos(d.Instr), "", "guard %s is also the receiver of a direct Do", guard.Name())
+				okG = false
+			}
+		}
+		if okG {
+			r.OK("T3", "guard/"+M.Name(), a.P.Pos(guard.Pos()), "", "built by %s under %s, which guards nothing else", fnKey(lh.H), guard.Name())
+			usedGuard[guard] = M.Name()
+			if a.LazyGuard == nil {
+				a.LazyGuard = map[*ssa.Global]*ssa.Global{}
+			}
+			a.LazyGuard[guard] = M
+		}
+	}
+	// shape and list
+	if list == nil || a.G.Lists[list] == nil {
+		r.Add("T3", "shape/"+M.Name(), sp0, "", Undecided, "the list handed to %s for %s is not one package-level word list", fnKey(lh.H), M.Name())
+	} else {
+		r.OK("T3", "shape/"+M.Name(), a.P.Pos(lh.H.Pos()), "", "%s(&%s, &%s, %s): fresh map; for i, w := range list { m[w] = int64(i) }", fnKey(lh.H), guardName(guard), M.Name(), list.Name())
+		a.OnceFn[M] = lh.Closure
+		a.MapList[M] = list
+		if bits, ok := log2exact(int64(len(a.G.Lists[list].Elems))); ok {
+			a.G.MapBits[M] = bits
+		}
+		sp := a.ListLang[list]
+		switch {
+		case sp == nil:
+			r.Bad("T3c", "inverse/"+M.Name(), sp0, "", "%s is built from %s, which is not a canonical list", M.Name(), list.Name())
+		case sp.Name != lc.Name:
+			r.Bad("T3c", "inverse/"+M.Name(), sp0, "", "the map used for %s is built from the canonical %s list", lc.Name, sp.Name)
+		default:
+			r.OK("T3c", "inverse/"+M.Name(), sp0, "", "inverse of the canonical %s list; values in [0,%d)", sp.Name, len(a.G.Lists[list].Elems))
+		}
+	}
+	// direct reads of M (outside the helper): each after a call of the helper for M
+	okL := true
+	nl := 0
+	for _, ld := range a.Ef.Loads[M] {
+		fn := ld.Parent()
+		if a.P.IsTestFunc(fn) {
+			continue
+		}
+		nl++
+		dom := false
+		for _, in := range insts {
+			if in.Site.Parent() == fn && instrDominates(in.Site, ld) {
+				dom = true
+			}
+		}
+		if !dom {
+			r.Bad("T3", "read-after-guard/"+M.Name(), a.P.InstrPos(ld), "", "%s is read in %s without a dominating call of %s for it: the read races with the construction", M.Name(), fnKey(fn), fnKey(lh.H))
+			okL = false
+		}
+	}
+	if okL {
+		r.OK("T3", "read-after-guard/"+M.Name(), pos, "", "read through %s after its Do (%d direct reads, each after such a call)", fnKey(lh.H), nl)
+	}
 }
 
 // builderShape checks: M = make(map…) ; for i, w := range L { M[w] = int64(i) } and nothing else that matters,
